@@ -8,6 +8,7 @@ reachable under ANY order and batching of events, any interleaving of executor s
 controller's micro-steps, any admissible heuristic choice, for every well-formed job and cluster.
 -/
 import EkwVerif.Lemmas.CtrlFinal
+import EkwVerif.Lemmas.CtrlN
 
 namespace EkwVerif.Ctrl
 
@@ -51,5 +52,72 @@ fetched again and purged while that fetch was unanswered). -/
 theorem c04_fetch_once (f : Sem) (j : Job) (cl : Cluster) (wf : WF j cl) (s : Sys) (hr : Reachable f j cl s) :
     ∀ ds, (s.env.outstanding.filter (isFetchOf ds)).length ≤ 1 :=
   (invAll_reachable f j cl wf s hr).h3.fetch_count
+
+/-- **Completion is read off the LAST output only.** A dataset is queued for purging, and purged, only after the notice
+of the last output (in index = declaration order, the order in which a body publishes) of every task that consumes it
+has been processed by the controller — not merely after that task has started or published something. -/
+theorem c04_purge_after_last_notice (f : Sem) (j : Job) (cl : Cluster) (wf : WF j cl) (s : Sys) (hr : Reachable f j cl s)
+    (ds : Ds) (hp : ds ∈ s.ctl.purgeQ ∨ ∃ h, (h, ds) ∈ s.env.purged) :
+    ∀ t, t ∈ j.consumers ds → s.ctl.doneC t = true ∧ s.ctl.announced ⟨t, j.nOut t - 1⟩ = true := by
+  have h := invAll_reachable f j cl wf s hr
+  have hl := invL_reachable f j cl s hr
+  intro t ht
+  have hd : s.ctl.doneC t = true := by
+    rcases hp with hq | ⟨hh, hq⟩
+    · exact (h.h2.purgeQ_ok ds hq).1 t ht
+    · cases hdc : s.ctl.doneC t with
+      | true => rfl
+      | false => exact absurd (Or.inl ⟨t, ht, hdc⟩) (h.h4.purged_unneeded hh ds hq)
+  exact ⟨hd, hl t hd⟩
+
+/-- **No purge while a consumer is running** (non-atomic task bodies, Model/CtrlN.lean). When task bodies publish their
+outputs one at a time while they run, with controller rounds, deliveries, transfers and other bodies interleaved in any
+way, a dataset is never queued for purging or purged on any host while a task that consumes it is still running
+(= has started and has not yet published its last output). -/
+theorem c04_no_purge_while_running (f : Sem) (j : Job) (cl : Cluster) (wf : WF j cl) (x : SysN) (hr : ReachableN f j cl x)
+    (ds : Ds) (hp : ds ∈ x.sys.ctl.purgeQ ∨ ∃ h, (h, ds) ∈ x.sys.env.purged) :
+    ∀ t, t ∈ j.consumers ds → x.running j t = false := by
+  intro t ht
+  have hb := reachableN_sys f j cl x hr
+  exact not_running_of_last j x (invN_reachable f j cl wf x hr) t (c04_purge_after_last_notice f j cl wf x.sys hb ds hp t ht).2
+
+/-- every invariant of the atomic system holds along non-atomic executions (in particular all monitors stay silent) -/
+theorem c04_nonatomic_monitors (f : Sem) (j : Job) (cl : Cluster) (wf : WF j cl) (x : SysN) (hr : ReachableN f j cl x) :
+    ∀ m, m ∈ ["C04 purge-before-consumer-done", "C04 purge-before-output-delivered", "C04 purge-needed-by-queued-task",
+       "C04 purge-while-outstanding-from", "C04 transmit-from-missing", "C04 fetch-from-missing",
+       "C04 io-source-gone transmit", "C04 io-source-gone fetch", "C04 input-purged-on-target"] → m ∉ x.sys.env.viol := by
+  intro m hin
+  have hb := reachableN_sys f j cl x hr
+  have p1 := c04_purge_safe f j cl wf x.sys hb
+  have p2 := c04_source_holds f j cl wf x.sys hb
+  have p3 := (c04_never_needed_again f j cl wf x.sys hb).2
+  simp only [List.mem_cons, List.not_mem_nil, or_false] at hin
+  rcases hin with rfl | rfl | rfl | rfl | rfl | rfl | rfl | rfl | rfl
+  · exact p1.1
+  · exact p1.2.1
+  · exact p1.2.2.1
+  · exact p1.2.2.2
+  · exact p2.1
+  · exact p2.2.1
+  · exact p2.2.2.1
+  · exact p2.2.2.2
+  · exact p3
+
+/-! non-vacuity: a two-output task is RUNNING (first output published and already announced to the controller, second not
+yet) while the controller goes through a full receive/notify round; the notice of an unpublished output cannot be received -/
+section
+def exJobN : Job := { tasks := [{ nOut := 2, gpu := false, inputs := [] }, { nOut := 1, gpu := false, inputs := [⟨0, 0⟩] }], ext := [⟨1, 0⟩] }
+def exClN : Cluster := { workers := [(⟨0, 0⟩, false)] }
+def exSemN : Sem := fun t k args => s!"t{t}.{k}({args})"
+def exStepsN : List StepN :=
+  [.base .enter, .base (.assign ⟨⟨0, 0⟩, 0, []⟩), .base .endAssign, .base .plan1, .base .endPlan, .base .endFlushF, .base .endFlush,
+   .start ⟨0, 0⟩ 0, .yield 0, .base (.recv [.pubW ⟨0, 0⟩ ⟨0, 0⟩]), .base .notify1, .base .endNotify]
+example : ((runStepsN exSemN exJobN exClN (SysN.init exJobN exClN) exStepsN).map
+    (fun x => (x.running exJobN 0, x.sys.ctl.announced ⟨0, 0⟩, x.sys.ctl.doneC 0, x.sys.env.ran 0))) = some (true, true, false, true) := by
+  decide
+example : (runStepsN exSemN exJobN exClN (SysN.init exJobN exClN)
+    (exStepsN.take 8 ++ [.base (.recv [.pubW ⟨0, 0⟩ ⟨0, 0⟩])])).isNone = true := by
+  decide
+end
 
 end EkwVerif.Ctrl
